@@ -58,6 +58,24 @@ func (g *Gen) scriptMode(o *Obligation, extra []string, getValues []string, abst
 		body.WriteString("\n")
 	}
 	body.WriteString(goal)
+	if !abstract && len(g.sfAxioms) > 0 {
+		// definitional axioms of quantified spec functions, only those reachable from the query
+		sofar := body.String()
+		used := make([]bool, len(g.sfAxioms))
+		var ax strings.Builder
+		for changed := true; changed; {
+			changed = false
+			for i, sa := range g.sfAxioms {
+				if !used[i] && (strings.Contains(sofar, "("+sa.name+" ") || strings.Contains(ax.String(), "("+sa.name+" ")) {
+					used[i] = true
+					changed = true
+					ax.WriteString(sa.text)
+					ax.WriteString("\n")
+				}
+			}
+		}
+		body.WriteString(ax.String())
+	}
 	bs := body.String()
 	var b strings.Builder
 	b.WriteString(prelude)
